@@ -624,6 +624,7 @@ class NearestNeighborModel(Model):
             YZ = Z.iscale_axis(Y, axis=0).split_legs([1])
             bond_XYZ[i] = (X, YZ)
         # construct the legs
+        chinfo = sites[0].leg.chinfo  # (needed below also if no bond had a genuine two-site part)
         legs = [None] * (L + 1)  # legs[i] is leg 'wL' left of site i with qconj=+1
         for i in range(L + 1):
             if i == L and bc == 'infinite':
